@@ -8,7 +8,8 @@ CONSTANTS MaxRows, MaxLayers
 \* UTF-8 bytes of: a=97 b=98 c=99 あ=E3 81 82  𠮷=F0 A0 AE B7
 A == <<97>>  B == <<98>>  C == <<99>>  HA == <<227, 129, 130>>  YO == <<240, 160, 174, 183>>
 KeySet == { A, A \o B, A \o B \o C, B, HA, HA \o A, YO, A \o HA, <<227, 129>> \o <<130, 97, 98>> }
-TextSet == { A \o B \o C, A \o B \o A, HA \o A \o B, YO \o A, A \o HA \o B, B \o B, HA \o HA, A \o B \o C \o A \o B }
+NUL == <<0>>
+TextSet == { NUL \o A \o B, A \o NUL \o B \o C, HA \o NUL \o A, A \o B \o C, A \o B \o A, HA \o A \o B, YO \o A, A \o HA \o B, B \o B, HA \o HA, A \o B \o C \o A \o B }
 
 NRows == LET RECURSIVE S(_) S(d) == IF d = 0 THEN 0 ELSE Len(layers[d]) + S(d - 1) IN S(Len(layers))
 
